@@ -285,6 +285,10 @@ func ComparableTo(pkg *Package, varg, targ *Element) bool {
 			return untypedComparable(pkg, t, targ, V)
 		}
 	}
+	if !types.Comparable(V) || !types.Comparable(T) {
+		// slices, maps and functions can only be compared with nil
+		return false
+	}
 	if getUnderlying(pkg, V) == getUnderlying(pkg, T) {
 		return true
 	}
